@@ -12,7 +12,8 @@ import vlib, e2e
 import shutdown_lib as L
 
 THEOREMS = ['C09_no_stuck', 'C09_impl_repaired', 'C09_no_stuck_impl', 'C09_step_decreases', 'C09_terminates',
-            'C09_exit_nonzero', 'C09_clean_exit_zero', 'C09_refuted_unfixed', 'C09_holds_below_capacity', 'C09_run_sound']
+            'C09_exit_nonzero', 'C09_clean_exit_zero', 'C09_refuted_unfixed', 'C09_holds_below_capacity', 'C09_run_sound',
+            'C09_sync_layer_step_decreases', 'C09_sync_layer_terminates']
 
 WATCHDOG = 30.0          # seconds; a run normally takes 0.01 s (local) to 0.4 s (both remote)
 WATCHDOG_SLOW = 90.0     # runs that really move tens of MiB through the debug-build AES link (2 - 15 s)
